@@ -25,12 +25,6 @@ import (
 	"verifharness/internal/h"
 )
 
-const (
-	sigShort  = "C09.sig-slice-short-chunk"
-	sigPad    = "C09.padding-exceeds-chunk"
-	sigOpnPad = "C09.opn-padding-exceeds-chunk"
-)
-
 func short(uri string) string { return uri[strings.LastIndex(uri, "#")+1:] }
 
 type env struct {
@@ -42,18 +36,15 @@ type env struct {
 }
 
 var (
-	reSig  = regexp.MustCompile(`slice bounds out of range \[-\d+:\]`)
-	reBody = regexp.MustCompile(`slice bounds out of range \[(:-\d+|\d+:\d+)\]`)
+	reSlice = regexp.MustCompile(`slice bounds out of range`)
 	reIdx  = regexp.MustCompile(`index out of range \[-(\d+)\]`)
 )
 
 // classify maps a Go panic message to the model's site names.
 func classify(msg string) string {
 	switch {
-	case reSig.MatchString(msg):
-		return "sigSlice"
-	case reBody.MatchString(msg):
-		return "bodySlice"
+	case reSlice.MatchString(msg):
+		return "slice"
 	case reIdx.MatchString(msg):
 		if reIdx.FindStringSubmatch(msg)[1] == "1" {
 			return "padByte"
@@ -133,24 +124,8 @@ func (e *env) run(cx *chunkCtx, kind string, raw []byte, v bool, want []byte) {
 	// ---- the property's own oracle on the implementation
 	switch {
 	case strings.HasPrefix(res, "panic"):
-		sig := ""
-		switch {
-		case cx.sym && !cx.enc && decodes && len(raw) < cx.RS:
-			sig = sigShort
-		case cx.sym && cx.enc && strings.HasPrefix(kind, "crafted-pad"):
-			sig = sigPad
-		case !cx.sym && (strings.HasPrefix(kind, "opn-crafted-pad") || strings.HasPrefix(kind, "opn-empty-body")):
-			sig = sigOpnPad
-		}
-		if sig != "" {
-			e.r.Confirm(sig, fmt.Sprintf("%s -> panic at %s (%s)", cshort, site, msg))
-			e.nfail[sig]++
-			if e.nfail[sig] > 2 {
-				e.r.Hit("oracle-fail-more:" + sig)
-				return
-			}
-		}
-		e.r.Fail(cshort, sig, "verifyAndDecrypt panicked: "+msg)
+		// no panic is tolerated any more (the three former findings are repaired)
+		e.r.Fail(cshort, "", "verifyAndDecrypt panicked at "+site+": "+msg)
 	case strings.HasPrefix(res, "ok"):
 		if !v {
 			e.r.Fail(cshort, "", fmt.Sprintf("a chunk not made with the channel's keys was accepted (%d bytes delivered)", len(data)))
@@ -649,6 +624,6 @@ func main() {
 		e.all()
 	}
 	r.Unreached = append(r.Unreached,
-		"model sites padByte / padByte2 (messageToVerify empty or 1 byte after a signature that verifies) and hdr (fewer bytes than the decoded headers): need a signature that verifies over a message shorter than the header, resp. a caller that passes a shorter slice than it decoded; not producible with real crypto / through the hook (C09_guard_is_needed shows them in the model)")
+		"model outcome panic (sites hdr, padByte, padByte2): only for parameter values the code never has (headerLength < 2, or fewer bytes than the decoded headers), see C09_parameter_hypotheses_needed; C09_total excludes them")
 	r.Write(o.Out)
 }
